@@ -228,10 +228,18 @@ package tree
 //@   loop 1
 //@     invariant [every_name_seen_so_far_is_shared] forall s string :: {visited(1, s)} visited(1, s) ==> has(t2.tipIndex, s)
 
+// EdgeIndex.Value (properties C04, C08, C09): the split of the branch is looked up in this index's own table; found means
+// the first entry of the slot selected by the branch's hash code whose key is the same split, and the record returned is the
+// one that entry holds; not found means no key of that slot is the same split and no record is returned
 //@ func (*tree.EdgeIndex).Value
 //@   requires em != nil && e != nil
+//@   entry [well_formed_table_of_count_records] em.hash != nil && HMok(em.hash) && (forall kv *hashmap.KeyValue :: {kv.Value} allocated(kv) ==> itag(kv.Value) == typetag("*EdgeIndexInfo") && iref(kv.Value) != 0)
 //@   assigns ghost(lock_RLock), ghost(lock_RUnlock)
+//@   call (*hashmap.HashMap).Value [the_split_of_the_branch_is_looked_up_in_this_index] a0 == em.hash && iref(a1) == e && itag(a1) == typetag("*Edge")
 //@   ensures [info_when_found] result1 ==> result0 != nil
+//@   ensures [no_record_when_not_found] !result1 ==> result0 == nil
+//@   ensures [found_is_the_first_entry_of_the_selected_slot_with_the_same_split] result1 ==> (exists j int :: 0 <= j && j < len(em.hash.mapArray[slot(iface(e, "*Edge"), em.hash.capacity)]) && heq(iface(e, "*Edge"), em.hash.mapArray[slot(iface(e, "*Edge"), em.hash.capacity)][j].Key) && result0 == cast(iref(em.hash.mapArray[slot(iface(e, "*Edge"), em.hash.capacity)][j].Value), "*EdgeIndexInfo") && (forall k int :: {em.hash.mapArray[slot(iface(e, "*Edge"), em.hash.capacity)][k]} 0 <= k && k < j ==> !heq(iface(e, "*Edge"), em.hash.mapArray[slot(iface(e, "*Edge"), em.hash.capacity)][k].Key)))
+//@   ensures [not_found_means_no_entry_of_the_selected_slot_has_the_same_split] !result1 ==> (forall k int :: {em.hash.mapArray[slot(iface(e, "*Edge"), em.hash.capacity)][k]} 0 <= k && k < len(em.hash.mapArray[slot(iface(e, "*Edge"), em.hash.capacity)]) ==> !heq(iface(e, "*Edge"), em.hash.mapArray[slot(iface(e, "*Edge"), em.hash.capacity)][k].Key))
 
 // ---------------------------------------------------------------------------
 // Tree comparison (properties C08, C11): the worker closure of Compare
@@ -264,11 +272,19 @@ package tree
 //@   ensures [closed_exactly_once] closed(stats)
 //@   ensures [closes_after_waiting] ghost(wg_wait) == old(ghost(wg_wait)) + 1 && ghost(ch_closed) == old(ghost(ch_closed)) + 1
 
+// EdgeIndex.PutEdgeValue (properties C04, C08): a branch without a bit vector is refused and nothing is stored; otherwise
+// a fresh record holding exactly the given count and length is put into this index's own table under the branch's split
 //@ func (*tree.EdgeIndex).PutEdgeValue
+//@   flag countcalls
 //@   requires em != nil && e != nil
+//@   entry [well_formed_table] em.hash != nil && HMok(em.hash) && HMplaced(em.hash)
 //@   allocates EdgeIndexInfo, hashmap.KeyValue, []hashmap.Bucket, []*hashmap.KeyValue, iface
 //@   assigns hashmap.HashMap.mapArray, hashmap.HashMap.capacity, hashmap.HashMap.total, elems("hashmap.Bucket"), elems("*hashmap.KeyValue"), hashmap.KeyValue.Value, ghost(lock_Lock), ghost(lock_Unlock)
+//@   call (*hashmap.HashMap).PutValue [a_fresh_record_with_the_given_count_and_length_is_stored_under_the_split_of_the_branch] e.bitset != nil && a0 == em.hash && iref(a1) == e && itag(a1) == typetag("*Edge") && itag(a2) == typetag("*EdgeIndexInfo") && fresh(cast(iref(a2), "*EdgeIndexInfo")) && cast(iref(a2), "*EdgeIndexInfo").Count == count && cast(iref(a2), "*EdgeIndexInfo").Len == length
 //@   ensures [lock_released] ghost(lock_Lock) - ghost(lock_Unlock) == old(ghost(lock_Lock) - ghost(lock_Unlock))
+//@   ensures [no_bitset_is_an_error_and_nothing_is_stored] old(e.bitset) == nil ==> result != nil && ghost(ncalls_PutValue) == old(ghost(ncalls_PutValue))
+//@   ensures [otherwise_exactly_one_record_is_stored] old(e.bitset) != nil ==> result == nil && ghost(ncalls_PutValue) == old(ghost(ncalls_PutValue)) + 1
+//@   ensures [table_stays_well_formed] old(e.bitset) != nil ==> HMok(em.hash) && HMplaced(em.hash) && em.hash == old(em.hash)
 
 // The worker closure of CompareWeighted (properties C08, C11)
 //@ func tree.CompareWeighted$1
@@ -352,14 +368,57 @@ package tree
 //@     invariant [nothing_done_yet] t.root == old(t.root) && ghost(ncalls_ConnectNodes) == old(ghost(ncalls_ConnectNodes)) && ghost(ncalls_ReinitIndexes) == old(ghost(ncalls_ReinitIndexes)) && len(t.tipIndex) != 0 && len(t2.tipIndex) != 0
 
 // Thin contracts of the enclosing functions (the workers above are verified on their own)
+// Compare / CompareWeighted, the spawning functions (properties C08, C11): a missing reference tree or a failing
+// re-indexing of it is an error; every branch of the re-indexed reference tree is put into one fresh index under its own
+// split, with its position and its own length; `total` counts exactly the reference branches that take part (all with
+// tips, inner ones without); one worker is announced and started per requested thread, plus the closer
 //@ func tree.Compare
 //@   flag treeop
+//@   flag noframe
+//@   flag countcalls
 //@   allocates chan, EdgeIndex, hashmap.HashMap
-//@   ensures [channel_or_error] result1 == nil ==> result0 != nil && !closed(result0)
+//@   ensures [channel_or_error] result1 == nil ==> result0 != nil
+//@   ensures [no_reference_tree_is_an_error] refTree == nil ==> result1 != nil
+//@   ensures [the_reference_tree_is_reindexed_exactly_once] refTree != nil ==> ghost(ncalls_ReinitIndexes) == old(ghost(ncalls_ReinitIndexes)) + 1
+//@   call (*tree.Tree).ReinitIndexes [the_reference_tree_is_reindexed_before_its_branches_are_listed] a0 == refTree && ghost(ncalls_Edges) == old(ghost(ncalls_Edges))
+//@   call (*tree.Tree).Edges [the_branches_of_the_reference_tree_are_listed] a0 == refTree
+//@   call tree.NewEdgeIndex [the_index_has_room_for_twice_the_reference_branches] a0 == 2 * len(edges)
+//@   call (*tree.EdgeIndex).PutEdgeValue [every_reference_branch_is_indexed_under_its_own_split_with_its_own_length] a0 == index && a1 == edges[rangeindex + 1] && a2 == rangeindex + 1 && a3 == edges[rangeindex + 1].length && fresh(index)
+//@   call (*sync.WaitGroup).Add [every_worker_is_announced_before_it_is_started] a1 == 1 && ghost(go_count) - old(ghost(go_count)) == cpu
+//@   ensures [one_worker_per_requested_thread_and_the_closer] result1 == nil && cpus >= 0 ==> ghost(go_count) == old(ghost(go_count)) + cpus + 1 && ghost(wg_add) == old(ghost(wg_add)) + cpus
+//@   loop 1
+//@     invariant [the_index_and_the_list] index != nil && fresh(index) && refTree != nil && stats != nil && !closed(stats) && fresh(stats)
+//@     invariant [nothing_spawned_yet] ghost(go_count) == old(ghost(go_count)) && ghost(wg_add) == old(ghost(wg_add)) && ghost(ncalls_ReinitIndexes) == old(ghost(ncalls_ReinitIndexes)) + 1
+//@     step [a_reference_branch_counts_when_tips_count_or_it_is_an_inner_branch] total == atHead(total) + ((tips || len(edges[rangeindex + 1].right.neigh) != 1) ? 1 : 0)
+//@   loop 2
+//@     invariant [workers_so_far_a] 0 <= cpu && (cpus >= 0 ==> cpu <= cpus)
+//@     invariant [workers_so_far_b] ghost(go_count) == old(ghost(go_count)) + cpu
+//@     invariant [workers_so_far_c] ghost(wg_add) == old(ghost(wg_add)) + cpu
+//@     invariant [workers_so_far_d] ghost(ncalls_ReinitIndexes) == old(ghost(ncalls_ReinitIndexes)) + 1
+//@     invariant [the_result_channel_stays_open_until_the_closer_runs] stats != nil && !closed(stats) && refTree != nil
 //@ func tree.CompareWeighted
 //@   flag treeop
+//@   flag noframe
+//@   flag countcalls
 //@   allocates chan, EdgeIndex, hashmap.HashMap
-//@   ensures [channel_or_error] result1 == nil ==> result0 != nil && !closed(result0)
+//@   ensures [channel_or_error] result1 == nil ==> result0 != nil
+//@   ensures [no_reference_tree_is_an_error] refTree == nil ==> result1 != nil
+//@   ensures [the_reference_tree_is_reindexed_exactly_once] refTree != nil ==> ghost(ncalls_ReinitIndexes) == old(ghost(ncalls_ReinitIndexes)) + 1
+//@   call (*tree.Tree).ReinitIndexes [the_reference_tree_is_reindexed_before_its_branches_are_listed] a0 == refTree && ghost(ncalls_Edges) == old(ghost(ncalls_Edges))
+//@   call (*tree.Tree).Edges [the_branches_of_the_reference_tree_are_listed] a0 == refTree
+//@   call tree.NewEdgeIndex [the_index_has_room_for_twice_the_reference_branches] a0 == 2 * len(refEdges)
+//@   call (*tree.EdgeIndex).PutEdgeValue [every_reference_branch_is_indexed_under_its_own_split_with_its_own_length] a0 == refIndex && a1 == refEdges[rangeindex + 1] && a2 == rangeindex + 1 && a3 == refEdges[rangeindex + 1].length && fresh(refIndex)
+//@   call (*sync.WaitGroup).Add [every_worker_is_announced_before_it_is_started] a1 == 1 && ghost(go_count) - old(ghost(go_count)) == cpu
+//@   ensures [one_worker_per_requested_thread_and_the_closer] result1 == nil && cpus >= 0 ==> ghost(go_count) == old(ghost(go_count)) + cpus + 1 && ghost(wg_add) == old(ghost(wg_add)) + cpus
+//@   loop 1
+//@     invariant [the_index_and_the_list] refIndex != nil && fresh(refIndex) && refTree != nil && stats != nil && !closed(stats) && fresh(stats)
+//@     invariant [nothing_spawned_yet] ghost(go_count) == old(ghost(go_count)) && ghost(wg_add) == old(ghost(wg_add)) && ghost(ncalls_ReinitIndexes) == old(ghost(ncalls_ReinitIndexes)) + 1
+//@   loop 2
+//@     invariant [workers_so_far_a] 0 <= cpu && (cpus >= 0 ==> cpu <= cpus)
+//@     invariant [workers_so_far_b] ghost(go_count) == old(ghost(go_count)) + cpu
+//@     invariant [workers_so_far_c] ghost(wg_add) == old(ghost(wg_add)) + cpu
+//@     invariant [workers_so_far_d] ghost(ncalls_ReinitIndexes) == old(ghost(ncalls_ReinitIndexes)) + 1
+//@     invariant [the_result_channel_stays_open_until_the_closer_runs] stats != nil && !closed(stats) && refTree != nil
 
 // ---------------------------------------------------------------------------
 // Collapse (property C07): the set of branches handed to RemoveEdges is
@@ -1223,9 +1282,26 @@ package tree
 //@     invariant [still_well_formed] INV12() && LIVEBR() && t != nil && t.root != nil && allocated(t.root)
 
 // StarTree: a central node with nbtips tips on branches of length 1 (thin)
+// StarTree (properties C16, C09): fewer than 2 tips is an error, not a crash; otherwise one inner node, which is the root,
+// and one fresh node per requested tip hung directly under it on a branch of length 1, named after its number; indexes
+// are rebuilt once before the tree is returned
 //@ func tree.StarTree
 //@   flag treeop
+//@   flag noframe
+//@   flag lightcalls
+//@   flag countcalls
 //@   ensures [a_tree_or_an_error] result1 == nil ==> result0 != nil && fresh(result0)
+//@   ensures [too_few_tips_is_an_error_not_a_crash] nbtips < 2 ==> result0 == nil && result1 != nil
+//@   ensures [a_single_inner_node_and_one_node_per_tip] result1 == nil ==> ghost(ncalls_NewNode) == old(ghost(ncalls_NewNode)) + nbtips + 1 && ghost(ncalls_ConnectNodes) == old(ghost(ncalls_ConnectNodes)) + nbtips
+//@   ensures [indexes_are_rebuilt_before_the_tree_is_returned] result1 == nil ==> ghost(ncalls_ReinitIndexes) == old(ghost(ncalls_ReinitIndexes)) + 1
+//@   call (*tree.Tree).SetRoot [the_inner_node_is_the_root] a0 == t && a1 == n && ghost(ncalls_NewNode) == old(ghost(ncalls_NewNode)) + 1
+//@   call (*tree.Tree).ConnectNodes [every_tip_hangs_directly_under_the_single_inner_node] a0 == t && a1 == n && a2 == n2 && freshiter(n2) && !freshiter(n)
+//@   call (*tree.Node).SetName [tips_are_named_after_their_number] a0 == n2 && a1 == "Tip" + itoa(i)
+//@   call (*tree.Edge).SetLength [every_branch_has_length_one] a1 == 1.0 && freshiter(a0)
+//@   call (*tree.Tree).ReinitIndexes [the_star_is_indexed] a0 == t
+//@   loop 1
+//@     invariant [tips_so_far] 0 <= i && i <= nbtips && t != nil && n != nil && ghost(ncalls_NewNode) == old(ghost(ncalls_NewNode)) + 1 + i && ghost(ncalls_ConnectNodes) == old(ghost(ncalls_ConnectNodes)) + i && ghost(ncalls_ReinitIndexes) == old(ghost(ncalls_ReinitIndexes))
+//@     step [one_tip_per_iteration] next(i) == i + 1 && ghost(ncalls_SetLength) == atHead(ghost(ncalls_SetLength)) + 1 && ghost(ncalls_SetName) == atHead(ghost(ncalls_SetName)) + 1
 
 //@ func (*tree.Tree).edgesRecur
 //@   requires t != nil && edge != nil && edge.right != nil && edges != nil && INV12() && LIVEBR() && allocated(edge.right)
@@ -1534,3 +1610,31 @@ package tree
 //@   call (*tree.Tree).AddBipartition [kept_split_carries_mean_length_and_frequency] a3 == real(bs.val.Len) / real(bs.val.Count) && a4 == real(bs.val.Count) / real(nbtrees)
 //@   loop 1
 //@     invariant [one_unrooting_per_indexing] ghost(ncalls_UnRoot) - old(ghost(ncalls_UnRoot)) == ghost(ncalls_ReinitIndexes) - old(ghost(ncalls_ReinitIndexes))
+
+// sortNeighbors (property C05): the neighbours of a node are reordered together with their branches - slot i of the
+// scratch table takes the i-th neighbour *and* the i-th branch of the node, the table is permuted as a whole, and slot i
+// of the node takes both members of the i-th table entry; every neighbour except the one we came from is sorted first,
+// with the node as its origin; a tip counts for one, an inner node for the sum over its subtrees
+//@ func (*tree.Tree).sortNeighbors
+//@   requires t != nil && cur != nil && INV12()
+//@   assigns elems("*Node"), elems("*Edge")
+//@   call (*tree.Tree).sortNeighbors [every_neighbour_but_the_origin_is_sorted_first_with_this_node_as_origin] a0 == t && a1 == cur.neigh[rangeindex + 1] && a1 != prev && a2 == cur
+//@   return [a_tip_counts_for_one_an_inner_node_for_its_subtrees] result == (len(cur.neigh) == 1 ? 1 : total)
+//@   ensures [still_as_many_neighbours_as_branches_everywhere] INV12()
+//@   loop 1
+//@     assigns elems(neighbors), elems("*Node"), elems("*Edge")
+//@     invariant [shape] INV12() && len(neighbors) == len(cur.neigh) && fresh_arr(neighbors)
+//@     invariant [the_table_holds_live_pairs_so_far] forall k int :: {neighbors[k]} 0 <= k && k <= rangeindex ==> neighbors[k].neigh != nil && neighbors[k].br != nil
+//@     step [slot_i_of_the_table_takes_the_i_th_neighbour_and_the_i_th_branch] neighbors[rangeindex + 1].neigh == atHead(cur.neigh[rangeindex + 1]) && neighbors[rangeindex + 1].br == atHead(cur.br[rangeindex + 1])
+//@     step [the_count_of_a_subtree_is_what_its_sorting_returned_and_the_origin_counts_for_nothing] next(total) == total + neighbors[rangeindex + 1].ntips && (atHead(cur.neigh[rangeindex + 1]) == prev ==> neighbors[rangeindex + 1].ntips == 0)
+//@   loop 2
+//@     assigns elems("*Node"), elems("*Edge")
+//@     invariant [shape] INV12() && len(neighbors) == len(cur.neigh) && fresh_arr(neighbors)
+//@     invariant [the_table_holds_live_pairs] forall k int :: {neighbors[k]} 0 <= k && k < len(neighbors) ==> neighbors[k].neigh != nil && neighbors[k].br != nil
+//@     step [slot_i_of_the_node_takes_both_members_of_the_i_th_table_entry] cur.neigh[rangeindex + 1] == neighbors[rangeindex + 1].neigh && cur.br[rangeindex + 1] == neighbors[rangeindex + 1].br
+
+//@ func (*tree.Tree).SortNeighborsByTips
+//@   requires t != nil && t.root != nil && INV12()
+//@   assigns elems("*Node"), elems("*Edge")
+//@   call (*tree.Tree).sortNeighbors [the_whole_tree_is_sorted_from_its_root_with_no_origin] a0 == t && a1 == t.root && a2 == nil
+//@   ensures [still_as_many_neighbours_as_branches_everywhere] INV12()
